@@ -63,6 +63,14 @@ theorem stripFrom_normal_escfree (t : Text) (h : ∀ c ∈ t, c ≠ ESC) : strip
     rw [ih (fun d hd => h d (by simp [hd]))]
     simp
 
+/-- only a character met in state `normal` can be visible -/
+theorem step_visible_normal (s : Ansi) (c : Char) (h : (s.step c).2 = true) : s = .normal := by
+  cases s with
+  | normal => rfl
+  | esc => simp only [Ansi.step] at h; split at h <;> (try split at h) <;> simp at h
+  | csi => simp only [Ansi.step] at h; split at h <;> simp at h
+  | osc l => simp only [Ansi.step] at h; split at h <;> simp at h
+
 /-! ### the token grammar of well-formed text -/
 
 /-- OSC payload that does not terminate early: no BEL, and no `\` directly after an ESC
